@@ -144,7 +144,12 @@ def run(ctx):
                 committed = dict(getattr(s.real.store.inner, "_paths", {}))
                 produced = set((r["paths"] or {}).keys())
                 refs = dict((p, k) for (p, k) in committed.items() if p not in produced)
-            g = _plotting._structure(fis, refs)
+            try:
+                g = _plotting._structure(fis, refs)
+            except BaseException as e:
+                res.violations.append({"what": "the graph of a pipeline that evaluates cannot be built: %s: %s" % (type(e).__name__, str(e)[:200]),
+                                       "input": case, "kf": None})
+                continue
             inodes = set(n.path for n in g.fnodes)
             isolid = set((e.from_path, e.to_path) for e in g.deps if e.edge_type == _plotting.DirectEdge)
             idashed = set((e.from_path, e.to_path) for e in g.deps if e.edge_type == _plotting.IndirectEdge)
